@@ -25,8 +25,8 @@ def evaluate(docs):
         if not x.startswith("ok "):
             out.append({"doc": d, "tok": t, "error": x})
             continue
-        _, c, w, h, m = x.split(" ")
-        out.append({"doc": d, "tok": t, "canonical": c == "1", "md": unhx(w), "ref": unhx(h), "model": m})
+        _, c, w, h, m, wf = x.split(" ")
+        out.append({"doc": d, "tok": t, "canonical": c == "1", "md": unhx(w), "ref": unhx(h), "model": m, "wf": wf == "1"})
     return out
 
 
@@ -93,7 +93,22 @@ def cls_header_only_table(r):
     return any(blk(b, False) for b in r["doc"]["body"])
 
 
-CLASSES = [("image_alt_caret", cls_image_alt_caret), ("tilde_transparent_in_flanking", cls_tilde_flanking),
+def cls_fence_info_math(r):
+    def blk(b):
+        return (b[0] == "Fence" and b[3] == b"math") or any(blk(c) for c in c03gen.kids_b(b))
+    return any(blk(b) for b in r["doc"]["body"])
+
+
+def in_proved_fragment(d):
+    """no tables, no footnotes, no fenced block with info string math (the domain of C03_render_partial)"""
+    def blk(b):
+        if b[0] in ("Table", "Fn") or (b[0] == "Fence" and b[3] == b"math"):
+            return False
+        return all(blk(c) for c in c03gen.kids_b(b))
+    return all(blk(b) for b in d["body"]) and not _inl_any(d, lambda i: i[0] == "Foot")
+
+
+CLASSES = [("fence_info_math", cls_fence_info_math), ("image_alt_caret", cls_image_alt_caret), ("tilde_transparent_in_flanking", cls_tilde_flanking),
            ("hr_then_blank_line_in_item_tight", cls_hr_blank_tight), ("header_only_table_in_tight_list", cls_header_only_table)]
 
 
@@ -152,10 +167,10 @@ def main(tier):
         fd = list(fam())
         if tier == "quick":
             rng.shuffle(fd)
-            fd = fd[:700]
+            fd = fd[:1200]
         fam_counts[name] = len(fd)
         docs += [(name, d) for d in fd]
-    nrand = 5000 if tier == "quick" else 60000
+    nrand = 12000 if tier == "quick" else 80000
     for _ in range(nrand):
         docs.append(("random", c03gen.gen_doc(rng, maxdepth=rng.choice([3, 4, 6]))))
     recs = evaluate([d for _, d in docs])
@@ -173,11 +188,21 @@ def main(tier):
     # the theorem, evaluated on every canonical document (all constructs, also those outside the proved fragment)
     nmodel = 0
     for r in can:
+        if r["model"] != "1" and cls_fence_info_math(r):
+            continue    # the renderer itself deviates there (known finding F27); reported through the comparison below
         if r["model"] != "1":
             c.problem("correspondence", "c03_render (evaluated)", f"html std_opts (tree_of d) differs from ref_html d: {r['model'][:200]}", {"doc": r["tok"][:3000]})
         else:
             nmodel += 1
     c.cov["spec_checks"]["html std_opts (tree_of d) = Ok (ref_html d), evaluated in the extracted model"] = nmodel
+    # domain of the proved theorem: canonical documents without tables / footnotes / math info satisfy wf_doc
+    nfrag = 0
+    for r in can:
+        if in_proved_fragment(r["doc"]):
+            nfrag += 1
+            if not r["wf"]:
+                c.problem("spec", "wf_doc", "a canonical document without tables, footnotes and math info strings is outside wf_doc (the domain of C03_render_partial)", {"doc": r["tok"][:3000]})
+    c.cov["spec_checks"]["canonical d and no table / footnote / math info => wf_doc d (domain of C03_render_partial)"] = nfrag
 
     # ------------------------------------------------------------------ the real parser
     run_impl(can)
@@ -212,6 +237,7 @@ def main(tier):
     c.cov["exhaustive"] = False
     c.cov["partial_clauses"] = [
         "parser half (write d is read back as tree_of d) is evaluated on generated documents, not proved",
+        "renderer half proved for the fragment wf_doc (no tables, footnotes, math info strings); for the other canonical documents it is evaluated in the extracted model",
         "known finding classes: " + ", ".join(n for n, _ in CLASSES)]
     c.assumptions = ["the reference renderer and the canonical predicate are written from CommonMark 0.31.2 / GFM 0.29; for footnotes and loose task items (no specification) the output of cmark-gfm is followed",
                      "options: strikethrough, table, autolink, tasklist, footnotes, unsafe (raw HTML passed through as in the specification examples)"]
